@@ -272,18 +272,28 @@ def pgn_of(kind, packet):
 def _task_d(args):
     """a multi-frame send() suspended by flow control, the gateway half-closing the link (EOF on the read side) and a second
     send() at every pair of loop boundaries: on each connection the packets of one message stay together"""
-    kind, first, second, k = args
+    kind, first, second, k = args[:4]
+    away = len(args) > 4 and args[4]          # the gateway refuses two attempts after the first connection
     skip = CONFIG_WRITES.get(kind, 0)
     pk = clientkit.std(kind)
     vios, outcomes = [], set()
     stats = {"judged": 0}
 
+    def sp_cancel_first(sess):
+        # the application gives up on its send() (wait_for timed out, task cancelled)
+        for t in sess.harness_tasks:
+            if t.get_name() == "harness:send-first" and not t.done():
+                t.cancel()
+                return True
+        return False
+
     def make(devs):
         def setup(gw):
             gw.pause_policy = lambda idx: idx >= skip
+        # the gateway is away for two attempts after the first connection: a reconnection spends time in its back-off
         return dict(kind=kind, script=[it_connect, it_send(MSGS[first], name="send-first")], setup=setup,
-                    specials={"eof": vloop.sp_eof, "reset": sp_reset, "second": vloop.sp_send(MSGS[second])},
-                    deviations=devs, heal=steady_state(pk["PROBE"]))
+                    specials={"eof": vloop.sp_eof, "reset": sp_reset, "second": vloop.sp_send(MSGS[second]), "cancel_first": sp_cancel_first},
+                    deviations=devs, heal=steady_state(pk["PROBE"]), connect_plan=("accept", "refuse", "refuse", "accept") if away else ("accept",))
 
     def on_exec(devs, sess, o):
         if not devs:
@@ -293,8 +303,14 @@ def _task_d(args):
         if bad or o.end_reason != "quiescent":
             vios.append({"kind": "hang", "facts": {"client": kind, "part": "D"}, "signature": f"D:hang:{kind}",
                          "detail": f"[{kind} {first} then {second}, devs={devs}] execution ended with {o.end_reason} {o.flags}",
-                         "case": {"part": "D", "client": kind, "first": first, "second": second, "deviations": [list(d) for d in devs]}})
+                         "case": {"part": "D", "client": kind, "first": first, "second": second, "away": bool(away), "deviations": [list(d) for d in devs]}})
             return
+        if (o.states[-1] if o.states else None) != "CONNECTED":
+            vios.append({"kind": "not_reconnected", "facts": {"client": kind, "part": "D", "fault": "during_suspended_send"},
+                         "signature": f"D:not_reconnected:{kind}:{[d[1] for d in devs]}",
+                         "detail": f"[{kind} send({first}) suspended by flow control, devs={devs}] final state {o.states[-1] if o.states else None}; status {[x for _, x in o.status]}; "
+                                   f"attempts {[(round(a.t, 2), a.outcome) for a in sess.gw.attempts]}",
+                         "case": {"part": "D", "client": kind, "first": first, "second": second, "away": bool(away), "deviations": [list(d) for d in devs]}})
         for c in sess.gw.conns:
             owners = [pgn_of(kind, w) for w in c.written]
             owners = [x for x in owners if x in (PGN_OF[first], PGN_OF[second])]
@@ -305,8 +321,8 @@ def _task_d(args):
                              "signature": f"D:interleaved:{kind}:{first}:{second}",
                              "detail": f"[{kind} send({first}) suspended by flow control, devs={devs}] on connection {c.cid} the packets alternate between the two messages: "
                                        f"PGN runs {runs}",
-                             "case": {"part": "D", "client": kind, "first": first, "second": second, "deviations": [list(d) for d in devs]}})
-    cnt = vloop.explore_placements(make, ["eof", "reset", "second"], k, on_exec)
+                             "case": {"part": "D", "client": kind, "first": first, "second": second, "away": bool(away), "deviations": [list(d) for d in devs]}})
+    cnt = vloop.explore_placements(make, ["eof", "reset", "second", "cancel_first"], k, on_exec)
     return {"runs": cnt["runs"], "outcomes": len(outcomes), "nontrivial": stats["judged"], "vios": vios[:30], "sample": None}
 
 
@@ -358,6 +374,7 @@ def run(ctx):
     for kind in SEND_KINDS:
         td.append((kind, "gnss", "fast2", 2))
         td.append((kind, "fast2", "gnss", 2))
+        td.append((kind, "fast2", "gnss", 2, True))
         if ctx.thorough:
             td.append((kind, "gnss", "fast2", 3))
     tasks = [("A", t) for t in ta] + [("B", t) for t in tb] + [("C", t) for t in tc] + [("D", t) for t in td]
@@ -405,7 +422,7 @@ def replay(ctx, rep):
         diff = [k for k in v if v[k] != vb[k]]
         res = [("bad_message_disturbs", {"bad": c["bad"], "changed": diff}, f"differs in {diff}")] if diff else []
     elif c["part"] == "D":
-        r = _task_d((kind, c["first"], c["second"], len(c["deviations"])))
+        r = _task_d((kind, c["first"], c["second"], len(c["deviations"]), c.get("away", False)))
         return [v for v in r["vios"] if v["case"]["deviations"] == c["deviations"]][:1] or r["vios"][:1]
     elif c["part"] == "C1":
         sess, o = run_c1(kind, c["name"], c["fail_at"], c.get("err", "pipe"))
